@@ -44,6 +44,12 @@ Definition induced_splits (t g : utree) (R : list string) : bool :=
 Definition induced_dists (t g : utree) (R : list string) : bool :=
   matrix_eqb (dist_matrix len0 g) (restrict_dists len0 t R).
 
+(** the same with every present length read as itself, negative ones included ([len0] of Spec/Obs.v
+    reads every negative length as 0, not only the absent sentinel -1) *)
+Definition len_raw (e : einfo) : Q := if qeqb (elen e) nilv then 0%Q else elen e.
+Definition induced_dists_raw (t g : utree) (R : list string) : bool :=
+  matrix_eqb (dist_matrix len_raw g) (restrict_dists len_raw t R).
+
 (** ** single-child inner nodes: none may be created by the pruning *)
 (** the (restricted, non-empty) leaf sets below the non-root nodes with exactly two neighbours *)
 Fixpoint single_clades_sub (f : list string -> list string) (t : utree) : list (list string) :=
